@@ -249,6 +249,21 @@ end QDecoder
 def Queue.intoDecoder (c : Coder) : QDecoder :=
   QDecoder.fromCompressed (Queue.intoCompressed c).reverse
 
+/-- `StackCoder::into_decoder`: the backend becomes a `Cursor` positioned at its end (the model
+    of a stack of words is the same list), `current_word` / `mask_last_written` are kept -/
+def Stack.intoDecoder (c : Coder) : Coder := c
+
+/-- `StackCoder::into_iterator()` (= `into_decoder()` used through its `Iterator` impl),
+    collected: every bit on the stack, last written first, then the iterator ends -/
+def Stack.intoIterator (W : Nat) (c : Coder) : M (List Bool) :=
+  Stack.iter W (Stack.intoDecoder c)
+
+/-- `QueueEncoder::into_overshooting_iter()` (= `into_decoder()` used through its `Iterator`
+    impl), collected: the written bits in order, **then the zero padding of the last exported
+    word** (the "overshoot"), then the iterator ends; also returns the exhausted decoder -/
+def Queue.intoOvershootingIter (W : Nat) (c : Coder) : M (List Bool × QDecoder) :=
+  QDecoder.iter W (Queue.intoDecoder c)
+
 /-! ## Bit sources and codebooks -/
 
 /-- what a `DecoderCodebook::decode_symbol` sees: an `Iterator<Item = Result<bool, Infallible>>` -/
